@@ -1,5 +1,6 @@
 import Lean.Data.Json
 import GBS.Model.Gen
+import GBS.Model.Mixture
 /-! JSON codecs for the line protocol (driver only; not part of the verified model). -/
 open Lean
 namespace GBS.Driver
@@ -109,5 +110,15 @@ def molToJson (m : Mol) : Json :=
     ("opens", Json.arr (m.opens.map fun o => (descToJson o.d).setObjVal! "node" (natToJson o.node)
                                             |>.setObjVal! "inst" (natToJson o.inst) |>.setObjVal! "k" (natToJson o.k)).toArray),
     ("mass", ratToJson m.mass)]
+
+def mixOf (j : Json) : R Mix := do
+  pure { abs := ← optOf ratOf (← getF j "abs"), rel := ← optOf ratOf (← getF j "rel"), sys := ← optOf ratOf (← getF j "sys") }
+
+def optRatToJson : Option Rat → Json
+  | none => Json.null
+  | some q => ratToJson q
+
+def mixToJson (m : Mix) : Json :=
+  Json.mkObj [("abs", optRatToJson m.abs), ("rel", optRatToJson m.rel), ("sys", optRatToJson m.sys)]
 
 end GBS.Driver
